@@ -58,8 +58,8 @@ type vfCtx struct {
 	replay   bool
 }
 
-func (c *vfCtx) NonTrivial()        { c.nontrivial = true }
-func (c *vfCtx) Class(name string)  { c.classes[name]++ }
+func (c *vfCtx) NonTrivial()       { c.nontrivial = true }
+func (c *vfCtx) Class(name string) { c.classes[name]++ }
 func (c *vfCtx) Count(name string, n int64) {
 	c.counters[name] += n
 }
@@ -78,8 +78,8 @@ func (c *vfCtx) Notef(format string, args ...any) {
 // open, still reproducing known finding. Oracles use it to keep searching past the
 // attributed event (and count it) instead of returning it.
 func (c *vfCtx) AttrActive(attr string) bool { return c.activeAttr[attr] }
-func (c *vfCtx) Excluded(n int)            { c.excluded += n }
-func (c *vfCtx) Thorough() bool            { return c.tier == "thorough" }
+func (c *vfCtx) Excluded(n int)              { c.excluded += n }
+func (c *vfCtx) Thorough() bool              { return c.tier == "thorough" }
 
 type vfKnownFinding struct {
 	ID          string          `json:"id"`
